@@ -337,6 +337,26 @@ pub fn run(rep: &mut Report) {
         });
     }
     sweep(rep, "c18.mono", dl.len() as u64 - 1, |i, out| j_mono(dl[i as usize], dl[i as usize + 1], out));
+    // interior scan (round 8) of duration x float: unremarkable durations within 10 000 years x factors of four kinds - generic
+    // mantissas at every magnitude 2^-70..2^20, near-unity factors 1 +- m x 10^-k (k = 8..15), whole numbers plus a tiny
+    // fraction, and many-digit decimals below 0.01
+    {
+        let nsc: u64 = if deep { 12_000_000 } else { 600_000 };
+        rep.bound("interior_scan_products", nsc);
+        let y10k: i128 = 10_000 * 36_525 * NS_DAY / 100;
+        sweep(rep, "c18.scan_dur_mul", 2 * nsc, |i, out| {
+            let k = i / 2;
+            let a = if k % 2 == 0 { lattice::scan_point(k, 0, -y10k, y10k) } else { lattice::scan_magnitude(k, 1, 20, 68).clamp(-y10k, y10k) };
+            let m = lattice::scan_point(k, 2, 0, (1i128 << 52) - 1) as f64 / (1u64 << 52) as f64; // [0, 1)
+            let x = match k % 4 {
+                0 => (1.0 + m) * 2f64.powi(-70 + ((k / 4) % 91) as i32),
+                1 => 1.0 + (m - 0.5) * 20.0 * 10f64.powi(-8 - ((k / 4) % 8) as i32),
+                2 => (1 + (k / 4) % 1000) as f64 + m * 10f64.powi(-9 - ((k / 4) % 6) as i32),
+                _ => m / 3.0 * 10f64.powi(-2 - ((k / 4) % 12) as i32),
+            } * if (k / 4) % 2 == 0 { 1.0 } else { -1.0 };
+            j_dur_mul((i % 2) as usize, a, x, out)
+        });
+    }
     sweep(rep, "c18.in_seconds", 9, |i, out| j_in_seconds(UNITS[i as usize], out));
     let years10k: i128 = 10_000 * 36_525 * NS_DAY / 100;
     let dm: Vec<i128> = dl.iter().copied().filter(|v| v.abs() <= years10k).collect();
